@@ -1019,3 +1019,141 @@ Qed.
 Theorem primitives_cache_coherent s xs :
   CacheCoherent s -> no_raise s (map ORope xs) -> CacheCoherent (run s (map ORope xs)).
 Proof. apply run_cache_coherent. Qed.
+
+(* ============================================ queries between changes behind rope's back and validate *)
+(* what survives while indicators may be out of date: a cached module whose stored indicator is (still)
+   the current one is what is on disk *)
+Definition Pending (s : state) : Prop :=
+  wf_disk (dsk s) /\ C_cells s /\
+  map_Forall (fun r v => exists i, watched s !! r = Some (Some i) /\ (stampw s r = Some i -> matches (dsk s) r v))
+             (mods s).
+
+Lemma coherent_pending s : CacheCoherent s -> Pending s.
+Proof.
+  intros (Hwf & Hm & _ & _ & Hc). split; [done|]. split; [done|].
+  intros r v Hr. destruct (Hm r v Hr) as ([i Hi] & Hw & Hma). exists i. by rewrite Hw, Hi.
+Qed.
+
+Lemma pending_xstep s x : Pending s -> x_sound s x -> Pending (xstep s x).
+Proof.
+  intros (Hwf & Hc & Hm) Hs. destruct (xstep_parts s x) as (Hmo & Hce & _ & Hwa & _).
+  split; [by apply xstep_wf|]. split; [unfold C_cells; by rewrite Hce, Hmo|].
+  rewrite Hmo. intros r v Hr. destruct (Hm r v Hr) as (i & Hw & Hma). exists i. rewrite Hwa. split; [done|].
+  intros Hcur. destruct (Hs r (Some i) Hw Hcur) as [Hold Hv]. eapply matches_rview; [exact Hv|by apply Hma].
+Qed.
+
+Lemma add_mod_pending s p v :
+  Pending s -> matches (dsk s) p v -> dexists (dsk s) p = true -> Pending (add_mod s p v).
+Proof.
+  intros (Hwf & Hc & Hm) Hma He. apply stampw_exists in He as [i Hi].
+  split; [done|]. split.
+  - intros k t Hk. cbn in *. specialize (Hc k t Hk). cbn in Hc.
+    destruct (decide (t = p)) as [->|Hne]; [by rewrite lookup_insert|by rewrite lookup_insert_ne].
+  - intros r v' Hr. change (stampw (add_mod s p v) r) with (stampw s r). cbn in *.
+    destruct (decide (r = p)) as [->|Hne].
+    + rewrite lookup_insert in Hr. injection Hr as <-. exists i. by rewrite lookup_insert, Hi.
+    + rewrite lookup_insert_ne in Hr by done. rewrite lookup_insert_ne by done. by apply Hm.
+Qed.
+
+Lemma load_file_pending s p : Pending s -> Pending (load_file s p).1.
+Proof.
+  intros HP. unfold load_file. destruct (mods s !! p) eqn:Hp; [done|].
+  destruct (dsk s !! p) as [[c mt|mt]|] eqn:Hd; try done.
+  destruct (cok c) eqn:Hok; [|done]. cbn. apply add_mod_pending; [done|cbn; by rewrite Hd|].
+  apply dexists_spec. right. by rewrite Hd.
+Qed.
+
+Lemma load_pending s p : Pending s -> Pending (load s p).1.
+Proof.
+  intros HP. unfold load. destruct (mods s !! p) eqn:Hp; [done|].
+  destruct (dsk s !! p) as [[c mt|mt]|] eqn:Hd; [by apply load_file_pending| |done].
+  cbn. set (s1 := match dsk s !! (p ++ [init_seg]) with Some (File _ _) => (load_file s (p ++ [init_seg])).1 | _ => s end).
+  assert (Pending s1 /\ dsk s1 = dsk s) as [HP1 Hd1].
+  { subst s1. destruct (dsk s !! (p ++ [init_seg])) as [[c mt'|mt']|]; try done.
+    split; [by apply load_file_pending|]. apply load_file_frame. }
+  apply add_mod_pending; [done| |].
+  - cbn. by rewrite Hd1, Hd.
+  - rewrite Hd1. apply dexists_spec. right. by rewrite Hd.
+Qed.
+
+Lemma load_true_cached s p : (load s p).2 = true -> is_Some (mods (load s p).1 !! p).
+Proof.
+  unfold load. destruct (mods s !! p) as [v|] eqn:Hp; [cbn; rewrite Hp; eauto|].
+  destruct (dsk s !! p) as [[c mt|mt]|] eqn:Hd; cbn.
+  - unfold load_file. rewrite Hp, Hd. destruct (cok c); cbn; [rewrite lookup_insert; eauto|done].
+  - rewrite lookup_insert. eauto.
+  - done.
+Qed.
+
+Lemma pending_query s q : Pending s -> Pending (run_query s q).1.
+Proof.
+  intros HP. destruct q as [|p|m n|p]; cbn.
+  - by destruct (flist s).
+  - destruct (load s p) as [s1 ok] eqn:E. cbn. change s1 with (s1, ok).1. rewrite <- E. by apply load_pending.
+  - destruct (load s m) as [s1 ok] eqn:E.
+    assert (Pending s1) as HP1 by (change s1 with (s1, ok).1; rewrite <- E; by apply load_pending).
+    destruct (mods s1 !! m) as [[c|]|]; try done.
+    destruct (ok && bool_decide (n ∈ cimports c)); [|done].
+    destruct (cells s1 !! (m, n)); [done|].
+    destruct (find_module (shape (dsk s1)) (parent m) n) as [t|]; [|done].
+    destruct (load s1 t) as [s2 ok2] eqn:E2.
+    assert (Pending s2) as HP2 by (change s2 with (s2, ok2).1; rewrite <- E2; by apply load_pending).
+    destruct ok2; [|done]. cbn. destruct HP2 as (Hwf & Hc & Hm). split; [done|]. split; [|done].
+    unfold C_cells. cbn. apply map_Forall_insert_2; [|done].
+    change s2 with (s2, true).1. rewrite <- E2. apply load_true_cached. by rewrite E2.
+  - destruct (load s p) as [s1 ok] eqn:E.
+    assert (Pending s1) as HP1 by (change s1 with (s1, ok).1; rewrite <- E; by apply load_pending).
+    destruct (mods s1 !! p) as [[c|[l|]]|] eqn:Hp; try done.
+    cbn. destruct HP1 as (Hwf & Hc & Hm). split; [done|]. split.
+    + intros k t Hk. cbn. specialize (Hc k t Hk). cbn in Hc.
+      destruct (decide (t = p)) as [->|Hne]; [by rewrite lookup_insert|by rewrite lookup_insert_ne].
+    + intros r v Hr. change (stampw (set_mod s1 p (PPkg (Some (children (dsk s1) p)))) r) with (stampw s1 r).
+      cbn in *. destruct (decide (r = p)) as [->|Hne].
+      * rewrite lookup_insert in Hr. injection Hr as <-. destruct (Hm p _ Hp) as (i & Hw & Hma).
+        exists i. split; [done|]. intros Hcur. destruct (Hma Hcur) as [? _]. done.
+      * rewrite lookup_insert_ne in Hr by done. by apply Hm.
+Qed.
+
+Lemma pending_steps s ps : Pending s -> pend_sound s ps -> Pending (foldl pend_step s ps).
+Proof.
+  revert s. induction ps as [|[x|q] ps IH]; intros s HP Hs; cbn in *; [done| |].
+  - destruct Hs as [Hx Hs]. apply IH; [by apply pending_xstep|done].
+  - apply IH; [by apply pending_query|done].
+Qed.
+
+(* validate(f) catches up from any such state, provided everything that is out of date lies below f *)
+Theorem validate_pending f s :
+  Pending s ->
+  (forall r i, watched s !! r = Some (Some i) -> stampw s r <> Some i -> inside f r = true) ->
+  CacheCoherent (validate_in f s).
+Proof.
+  intros (Hwf & Hc & Hm) Hin. unfold validate_in.
+  assert (CacheCoherent (apply_changes (v_chg s f) (w_gone s f) (w_created s f) (set_flist s None))) as HC;
+    [|destruct (fix_forget (cfg s)); [by apply forget_all_core|done]].
+  destruct (apply_changes_core (v_chg s f) (w_gone s f) (w_created s f) (set_flist s None)) as (H1 & H2 & H3 & H4).
+  - done.
+  - done.
+  - cbn. intros r v Hr. destruct (Hm r v Hr) as (i & Hw & Hma). exists i. split; [done|]. intros _. exact Hma.
+  - cbn. intros r i Hw Hne. left. change (stampw (set_flist s None) r) with (stampw s r) in Hne.
+    pose proof (Hin r i Hw Hne) as Hi.
+    assert (is_watched s r = true) as Hiw by (unfold is_watched; rewrite Hw; by apply bool_decide_eq_true).
+    unfold v_chg, w_gone, w_stale. rewrite Hi, Hiw. cbn.
+    assert (out_of_date s r = true) as ->.
+    { unfold out_of_date. rewrite Hw. apply negb_true_iff, bool_decide_eq_false. exact Hne. }
+    destruct (dexists (dsk s) r); done.
+  - apply core_of_parts; done.
+Qed.
+
+(* project.validate() after any interleaving of sound changes behind rope's back and queries *)
+Theorem validate_after_queries s ps :
+  CacheCoherent s -> pend_sound s ps -> CacheCoherent (validate (foldl pend_step s ps)).
+Proof.
+  intros HC Hs. apply validate_pending; [by apply pending_steps; [apply coherent_pending|]|].
+  intros r i Hw Hne. apply inside_spec. apply under_spec. by exists r.
+Qed.
+
+Lemma pend_sound_b_spec s ps : pend_sound_b s ps = true -> pend_sound s ps.
+Proof.
+  revert s. induction ps as [|[x|q] ps IH]; intros s H; cbn in *; [done| |by apply IH].
+  apply andb_true_iff in H as [H1 H2]. apply bool_decide_eq_true in H1. auto.
+Qed.
